@@ -213,6 +213,18 @@ var c16Broken = []struct {
 	{"filter-exec-error", "{{ n|pluralize:\"a,b,c\" }}", true},
 	{"filter-exec-error2", "{{ v|date:\"2006\" }}", true},
 	{"filter-exec-error3", "{{ v|yesno:\"only\" }}", true},
+	// every built-in filter failure whose message does not depend on the place (a value that could be built once)
+	{"filter-floatformat-limit", "{{ 1.5|floatformat:1001 }}", true},
+	{"filter-floatformat-limit-neg", "{{ 2.25|floatformat:-2000 }}", true},
+	{"filter-center-limit", "{{ v|center:10001 }}", true},
+	{"filter-ljust-limit", "{{ v|ljust:10001 }}", true},
+	{"filter-rjust-limit", "{{ v|rjust:10001 }}", true},
+	{"filter-slice-format", "{{ v|slice:\"x\" }}", true},
+	{"filter-pluralize-nan", "{{ v|pluralize }}", true},
+	{"filter-removetags-invalid", "{{ v|removetags:\"b<\" }}", true},
+	{"filter-yesno-four", "{{ t|yesno:\"a,b,c,d\" }}", true},
+	{"filter-time-nontime", "{{ v|time:\"15\" }}", true},
+	{"filter-tag-limit", "{% filter center:10001 %}x{% endfilter %}", true},
 	{"if-cond-error", "{% if 1 / zero %}x{% endif %}", true},
 	{"for-error", "{% for i in fail() %}x{% endfor %}", true},
 	{"lazy-include-missing", "{% include missingname %}", true},
@@ -369,8 +381,10 @@ func c16RunProgram(c *C) {
 			src = ""
 			delete(sources, "<string>")
 		}
-	case 2: // error inside an included file
-		files = map[string]string{"/main.tpl": c16Layout(r) + "{% include \"sub/inc.tpl\" %}" + c16Layout(r), "/sub/inc.tpl": bom + body}
+	case 2: // error inside an included file (also one whose name differs from the includer's only in case, or extends it)
+		nn := r.Pick([]string{"sub/inc.tpl", "sub/inc.tpl", "Main.tpl", "MAIN.TPL", "main.tpl.inc", "sub/main.tpl", "mäin.tpl"})
+		how := r.Pick([]string{"{% include \"" + nn + "\" %}", "{% include \"" + nn + "\" %}", "{% ssi \"" + nn + "\" parsed %}", "{% include \"" + nn + "\" if_exists %}"})
+		files = map[string]string{"/main.tpl": c16Layout(r) + how + c16Layout(r), "/" + nn: bom + body}
 		src = ""
 	case 3: // inside an extended parent's block / the parent itself
 		files = map[string]string{"/main.tpl": "{% extends \"base.tpl\" %}{% block b %}child{% endblock %}", "/base.tpl": bom + c16Layout(r) + "{% block b %}x{% endblock %}" + body}
@@ -384,7 +398,8 @@ func c16RunProgram(c *C) {
 			sources["<string>"] = body
 		}
 	default: // inside an imported macro file / a macro body executed by the importer
-		files = map[string]string{"/main.tpl": c16Layout(r) + "{% import \"lib.tpl\" mm %}{{ mm() }}", "/lib.tpl": bom + "{% macro mm() export %}" + body + "{% endmacro %}"}
+		ln := r.Pick([]string{"lib.tpl", "lib.tpl", "Main.tpl", "MAIN.tpl", "main.TPL"})
+		files = map[string]string{"/main.tpl": c16Layout(r) + "{% import \"" + ln + "\" mm %}{{ mm() }}", "/" + ln: bom + "{% macro mm() export %}" + body + "{% endmacro %}"}
 		src = ""
 		if strings.Contains(b.src, "{% macro") || strings.Contains(b.src, "{% block") {
 			files = nil
